@@ -169,6 +169,23 @@ def run(ck):
     n2d = link.send_list(radio, agg)
     n8 = c08.run_for(ck, radio, agg, lite=True)
     n9 = load_ack(radio, agg)
+    # R20.10: the constructor *establishes* the configuration the documented reductions speak of, whatever a still-powered radio was left
+    # with by an earlier session (auto-ack on all pipes, 2-byte CRC, dynamic payloads + ACK payload feature bits, 5-byte addresses, all RX
+    # pipes closed, 32-byte static width): every one of these registers is a constant the constructor wrote - not a power-on default
+    f_init = ck.prog.method(radio.cls, "__init__")
+    LITE_INIT = {0x00: (0x0E, 0x0C), 0x01: (0x3F, 0x3F), 0x02: (0x00, 0x3F), 0x03: (0x03, 0x03), 0x1C: (0x3F, 0x3F), 0x1D: (0x05, 0x07),
+                 0x11: (32, 0x3F), 0x04: (0x5F, 0xFF), 0x06: (0x07, 0x2F)}
+    inits = [o for o in radio.init_outs if o.kind == "return"]
+    agg.add("R20.10", f_init, "the constructor has a normal exit (anchor)", bool(inits), "no returning path")
+    from ..absval import const_of, norm
+    from .radio import regname
+    for o in inits:
+        for r, (want, mask) in LITE_INIT.items():
+            v = o.state.extra["regs"].get(r)
+            c = const_of(norm(v)) if v is not None else None
+            agg.add("R20.10", f_init, "the constructor programs %s itself (documented lite configuration), not relying on what the radio held" % regname(r),
+                    isinstance(c, int) and (c & mask) == (want & mask),
+                    "after RF24.__init__ %s holds %r; the lite driver's documented configuration needs 0x%02X under mask 0x%02X whatever an earlier session left there" % (regname(r), v, want, mask))
     # rename rule ids so findings carry the C20 provenance too (R20.<orig>)
     agg.flush()
     ck.floor("R20", "lite setter scenarios", ns, 60)
